@@ -163,14 +163,25 @@ func (o *out) finish(imports string) {
 	v.WriteString("From Coq Require Import ZArith List Bool.\nImport ListNotations.\n")
 	v.WriteString(imports + "\nOpen Scope Z_scope.\n")
 	v.WriteString(o.coq.String())
-	v.WriteString("Definition cases : list (Z * bool) := [")
-	for i := 0; i < o.ncases; i++ {
-		if i > 0 {
-			v.WriteString("; ")
+	// the case list is written in chunks: one literal of tens of thousands of elements overflows coqc's stack
+	const chunk = 500
+	nchunks := 0
+	for start := 0; start < o.ncases; start += chunk {
+		fmt.Fprintf(&v, "Definition cases_%d : list (Z * bool) := [", nchunks)
+		for i := start; i < o.ncases && i < start+chunk; i++ {
+			if i > start {
+				v.WriteString("; ")
+			}
+			fmt.Fprintf(&v, "(%d, c%d)", i, i)
 		}
-		fmt.Fprintf(&v, "(%d, c%d)", i, i)
+		v.WriteString("].\n")
+		nchunks++
 	}
-	v.WriteString("].\n")
+	v.WriteString("Definition cases : list (Z * bool) := ")
+	for k := 0; k < nchunks; k++ {
+		fmt.Fprintf(&v, "cases_%d ++ ", k)
+	}
+	v.WriteString("[].\n")
 	v.WriteString("Definition mismatches := Eval vm_compute in map fst (filter (fun c => negb (snd c)) cases).\n")
 	v.WriteString("Definition ncases := Eval vm_compute in Z.of_nat (length cases).\n")
 	v.WriteString("Print mismatches.\nPrint ncases.\n")
